@@ -755,8 +755,55 @@ def _renumber(fn: FuncInfo):
     fn.node.end_lineno = counter[0]
 
 
+def fold_int_constants(prog: Program) -> int:
+    """Named integer constants of the repository (`EXIT_OK = 0` at module level, assigned once, upper-case) are replaced by their
+    value wherever they are read, so that `return exit_status.SUCCESS` and `return 0` are the same thing to every rule."""
+    table: dict[str, ast.Constant] = {}
+    for mod in prog.modules.values():
+        counts: dict[str, int] = {}
+        for st in mod.tree.body:
+            tg = st.targets if isinstance(st, ast.Assign) else ([st.target] if isinstance(st, (ast.AnnAssign, ast.AugAssign)) else [])
+            for t in tg:
+                if isinstance(t, ast.Name):
+                    counts[t.id] = counts.get(t.id, 0) + 1
+        for name, val in mod.constants.items():
+            if counts.get(name) == 1 and name.isupper() and isinstance(val, ast.Constant) and isinstance(val.value, int) and not isinstance(val.value, bool):
+                table[f"{mod.name}.{name}"] = val
+    if not table:
+        return 0
+    n = 0
+    for fn in prog.functions.values():
+        if fn.parent is not None:
+            continue
+        local = _assigned_names(fn.node.body) | set(fn.params())
+        mod = fn.module
+
+        class T(ast.NodeTransformer):
+            def visit_Name(self, x):
+                nonlocal n
+                if isinstance(x.ctx, ast.Load) and x.id not in local and x.id.isupper():
+                    q = prog.resolve_dotted(mod, x.id)
+                    if q in table:
+                        n += 1
+                        return ast.copy_location(ast.Constant(value=table[q].value), x)
+                return x
+
+            def visit_Attribute(self, x):
+                nonlocal n
+                if isinstance(x.ctx, ast.Load) and x.attr.isupper():
+                    q = prog.resolve_expr_name(mod, x)
+                    if q in table:
+                        n += 1
+                        return ast.copy_location(ast.Constant(value=table[q].value), x)
+                return self.generic_visit(x)
+
+        T().visit(fn.node)
+    return n
+
+
 def inline_program(prog: Program) -> dict:
     """Bring every non-visitor function into helper-inlined normal form (in place). Returns a summary for evidence."""
+    folded = fold_int_constants(prog)
     inl = Inliner(prog)
     touched: set[str] = set()
     for _round in range(MAX_ROUNDS):
@@ -792,4 +839,4 @@ def inline_program(prog: Program) -> dict:
     for q in absorbed:
         prog.functions[q].absorbed = True
     return {"inlined_call_sites": len(inl.log), "functions_changed": sorted(touched), "helpers": sorted(inlined_helpers), "absorbed": sorted(absorbed),
-            "pairs": sorted({(c, h) for c, h in inl.log if not h.startswith("<")})}
+            "pairs": sorted({(c, h) for c, h in inl.log if not h.startswith("<")}), "int_constants_folded": folded}
